@@ -42,8 +42,41 @@ def _decl(d):
     return out
 
 
-def apply_then(model, op):
+SETTER = {"add_event": "event_list", "add_transition": "transition_list", "add_birth_death": "birth_death_list",
+          "add_ode": "ode_list"}
+
+# input forms the unchanged pygom accepts (anything else it rejects with an error: such a form is tagged, not
+# judged; an accepted form must be accepted and must give the right model - C12)
+ACCEPTED_FORMS = {("ctor", "event", "list"), ("ctor", "event", "tuple"),
+                  ("ctor", "transition", "list"), ("ctor", "transition", "tuple"),
+                  ("ctor", "birth_death", "list"), ("ctor", "birth_death", "tuple"), ("ctor", "birth_death", "single"),
+                  ("ctor", "ode", "list"), ("ctor", "ode", "single"),
+                  ("decl", "state", "list"), ("decl", "state", "str"),
+                  ("decl", "param", "list"), ("decl", "param", "str"), ("decl", "param", "tuple"),
+                  ("then", "add_event", "add"), ("then", "add_event", "setter_list"), ("then", "add_event", "setter_tuple"),
+                  ("then", "add_transition", "add"), ("then", "add_transition", "setter_list"), ("then", "add_transition", "setter_tuple"),
+                  ("then", "add_birth_death", "add"), ("then", "add_birth_death", "setter_list"),
+                  ("then", "add_birth_death", "setter_tuple"), ("then", "add_birth_death", "setter_single"),
+                  ("then", "add_ode", "add"), ("then", "add_ode", "setter_list"), ("then", "add_ode", "setter_single")}
+
+
+def _shape(objs, form):
+    """a list of API objects in the container form asked for ("single" only makes sense for one object)"""
+    if form == "tuple":
+        return tuple(objs)
+    if form == "single" and len(objs) == 1:
+        return objs[0]
+    return list(objs)
+
+
+def apply_then(model, op, form="add"):
+    """`form`: "add" = the add_* method; "setter_list" / "setter_tuple" / "setter_single" = assignment of a
+    one-element list / tuple / the bare object to the corresponding *_list property (which appends)"""
     k = op["op"]
+    if form != "add" and k in SETTER:
+        obj = _ev(op) if k == "add_event" else _tr(op["t"])
+        setattr(model, SETTER[k], _shape([obj], form[len("setter_"):]))
+        return
     if k == "add_event":
         model.add_event(_ev(op))
     elif k == "add_transition":
@@ -62,29 +95,39 @@ def apply_then(model, op):
         raise ValueError(k)
 
 
-def build(spec, backend="lambda", upto=None):
+def build(spec, backend="lambda", upto=None, forms=None):
     """returns the SimulateOde built through the routes of `spec`.
-    Python exceptions propagate (the caller maps them to the error enum)."""
+    Python exceptions propagate (the caller maps them to the error enum).
+    `forms` (optional, ignored by the Lean model, which sees lists): {"ctor": {keyword: "list"|"tuple"|"single"},
+    "state": "tuple", "param": "tuple", "then": [form per operation, see apply_then]}"""
     bootstrap.init()
     from pygom import SimulateOde
+    forms = forms or {}
+    cf = forms.get("ctor", {})
     c = spec.get("ctor", {})
     kw = {}
     if spec.get("derived"):
         kw["derived_param"] = [(n, E.to_str(e)) for n, e in spec["derived"]]
     if c.get("event"):
-        kw["event"] = [_ev(e) for e in c["event"]]
+        kw["event"] = _shape([_ev(e) for e in c["event"]], cf.get("event", "list"))
     if c.get("transition"):
-        kw["transition"] = [_tr(t) for t in c["transition"]]
+        kw["transition"] = _shape([_tr(t) for t in c["transition"]], cf.get("transition", "list"))
     if c.get("birth_death"):
-        kw["birth_death"] = [_tr(t) for t in c["birth_death"]]
+        kw["birth_death"] = _shape([_tr(t) for t in c["birth_death"]], cf.get("birth_death", "list"))
     if c.get("ode"):
-        kw["ode"] = [_tr(t) for t in c["ode"]]
-    m = SimulateOde(state=_decl(spec["state"]), param=_decl(spec["param"]), **kw)
+        kw["ode"] = _shape([_tr(t) for t in c["ode"]], cf.get("ode", "list"))
+    st, pa = _decl(spec["state"]), _decl(spec["param"])
+    if forms.get("state") == "tuple" and not isinstance(st, str):
+        st = tuple(st)
+    if forms.get("param") == "tuple" and not isinstance(pa, str):
+        pa = tuple(pa)
+    m = SimulateOde(state=st, param=pa, **kw)
     if backend == "lambda":
         bootstrap.fast_backend(m)
     ops = spec.get("then", [])
-    for op in (ops if upto is None else ops[:upto]):
-        apply_then(m, op)
+    tf = forms.get("then", [])
+    for i, op in enumerate(ops if upto is None else ops[:upto]):
+        apply_then(m, op, tf[i] if i < len(tf) else "add")
     return m
 
 
